@@ -48,6 +48,8 @@ Fixpoint chunks (k fuel : nat) (bs : list Z) : list (list Z) :=
 Definition int64_of (bs : list Z) : Z :=
   let u := le_nat bs in if Z.leb 9223372036854775808 u then (u - 18446744073709551616)%Z else u.
 
+Definition is_some {A} (o : option A) : bool := match o with Some _ => true | None => false end.
+
 Inductive ilit := IInt (z : Z) | IFloat (bits : Z) | IInts (zs : list Z) | IFloats (bits : list Z).
 
 (* _get_const_repr on the first attribute of a Constant node *)
@@ -70,8 +72,27 @@ Definition const_lit (a : attrv) : option ilit :=
     else None
   | _ => None
   end.
-Definition node_const (attrs : list (string * attrv)) : option ilit :=
-  match attrs with (_, a) :: _ => const_lit a | [] => None end.
+
+(* Repair variants (proposed_fixes C13_02 / _04 / _05 / _09, decided by probe in harness/c13_variants.py); every flag
+   false = the exporter as read.  The flags only exist when inline_const is on: the option is `option inline_fx`. *)
+Record inline_fx := {
+  fx_finite : bool;       (* C13_04: nan / inf / -inf are not inlined *)
+  fx_nonempty : bool;     (* C13_09: a constant of shape [0] is not inlined *)
+  fx_src_ref : bool;      (* C13_05: right-hand sides of emitted assignments, range() and return use the literal *)
+  fx_init_raw : bool      (* C13_02: an inlined initializer is recorded under its ONNX name *)
+}.
+Definition as_read_fx : inline_fx := {| fx_finite := false; fx_nonempty := false; fx_src_ref := false; fx_init_raw := false |}.
+Definition nonfinite_b (b : Z) : bool := Z.leb 2139095040 (Z.modulo b 2147483648).
+Definition lit_okb (fx : inline_fx) (l : ilit) : bool :=
+  negb (fx_finite fx && match l with IFloat b => nonfinite_b b | IFloats bs => existsb nonfinite_b bs | _ => false end) &&
+  negb (fx_nonempty fx && match l with IInts [] | IFloats [] => true | _ => false end).
+Definition const_lit_fx (fx : inline_fx) (a : attrv) : option ilit :=
+  match const_lit a with Some l => if lit_okb fx l then Some l else None | None => None end.
+Definition node_const (fx : inline_fx) (attrs : list (string * attrv)) : option ilit :=
+  match attrs with (_, a) :: _ => const_lit_fx fx a | [] => None end.
+(* `self.inline_const and node.op_type == "Constant"` and a compact representation exists *)
+Definition inl_drop (inline : option inline_fx) (op : string) (attrs : list (string * attrv)) : bool :=
+  match inline with Some fx => String.eqb op "Constant" && is_some (node_const fx attrs) | None => false end.
 
 (* str(numpy float32) / repr(python float): nan, inf, -inf are printed as bare names *)
 Definition is_nan_bits (b : Z) : bool := Z.ltb 2139095040 (Z.modulo b 2147483648).
@@ -102,8 +123,6 @@ Definition pyop (sym : string) : option (bool * string) :=
      ("/", (false, "Div")); ("**", (false, "Pow")); ("&", (false, "BitAnd")); ("|", (false, "BitOr"));
      (">", (true, "Gt")); ("==", (true, "Eq")); ("<", (true, "Lt")); (">=", (true, "GtE")); ("<=", (true, "LtE"))].
 
-Definition is_some {A} (o : option A) : bool := match o with Some _ => true | None => false end.
-
 (* the loop needs its condition: some node other than `cond_out = Identity(cond_in)` mentions one of the two *)
 Definition passthrough (cin cout : vname) (n : node) : bool :=
   let 'Node dom op ins outs _ _ := n in
@@ -132,7 +151,8 @@ Section EmitCF.
   Variable kw : list string.
   Variable rename : vname -> string.              (* self._rename_variable *)
   Variable infun : bool.                          (* inside _translate_function (a remapping scope exists) *)
-  Variable use_ops inline : bool.                 (* the options use_operators, inline_const *)
+  Variable use_ops : option bool.                 (* use_operators; Some true = C13_11: a negative literal operand is parenthesized *)
+  Variable inline : option inline_fx.             (* inline_const, with its repair flags *)
 
   (* ---- the exporter's two dictionaries, as association lists (latest entry first) --------------------- *)
   Definition remaps := list (vname * string).
@@ -145,9 +165,9 @@ Section EmitCF.
     Variable sub : remaps * cdict -> graph -> remaps * cdict.
     Definition scan_node (st : remaps * cdict) (n : node) : remaps * cdict :=
       let 'Node dom op ins outs attrs subs := n in
-      if inline && String.eqb op "Constant" && is_some (node_const attrs) then
-        match node_const attrs, outs with
-        | Some l, o :: _ => (fst st, (o, l) :: snd st)
+      if inl_drop inline op attrs then
+        match inline, outs with
+        | Some fx, o :: _ => match node_const fx attrs with Some l => (fst st, (o, l) :: snd st) | None => st end
         | _, _ => st
         end
       else if String.eqb op "If" then
@@ -194,6 +214,25 @@ Section EmitCF.
 
   Definition assigns (lhs rhs : list string) : list stmt :=
     map (fun p => SAssign (fst p) (EVar (snd p))) (combine lhs rhs).
+  (* the right-hand side of an emitted assignment: the variable as read; the reference (an inlined literal) with C13_05 *)
+  Definition src_refb : bool := match inline with Some fx => fx_src_ref fx | None => false end.
+  Definition ref_name (x : vname) : expr := if is_empty x then EVar "None" else ref_e (Some x).
+  Definition src_o (o : option vname) : expr :=
+    match inline with Some fx => if fx_src_ref fx then ref_e o else EVar (tvo o) | None => EVar (tvo o) end.
+  Definition src_n (x : vname) : expr :=
+    match inline with Some fx => if fx_src_ref fx then ref_name x else EVar (tv x) | None => EVar (tv x) end.
+  Definition assigns_e (lhs : list string) (rhs : list expr) : list stmt :=
+    map (fun p => SAssign (fst p) (snd p)) (combine lhs rhs).
+  Definition assigns_n (lhs : list string) (rhs : list vname) : list stmt :=
+    match inline with
+    | Some fx => if fx_src_ref fx then assigns_e lhs (map ref_name rhs) else assigns lhs (map tv rhs)
+    | None => assigns lhs (map tv rhs)
+    end.
+  Definition assigns_o (lhs : list string) (rhs : list (option vname)) : list stmt :=
+    match inline with
+    | Some fx => if fx_src_ref fx then assigns_e lhs (map ref_e rhs) else assigns lhs (map tvo rhs)
+    | None => assigns lhs (map tvo rhs)
+    end.
 
   (* the generic call, with references that may be literals (the straight-line model Emit.emit_node has names only) *)
   Definition emit_call (n : node) : option (list stmt) :=
@@ -221,7 +260,8 @@ Section EmitCF.
 
   (* The text `a ** b` is read back by Python's grammar, in which `**` binds tighter than a unary minus on its LEFT:
      with a negative literal (or -inf) as left operand the parsed expression is -(|a| ** b), not (a) ** b.
-     The model gives the expression as parsed (what the generated source denotes). *)
+     The model gives the expression as parsed (what the generated source denotes).  With C13_11 (use_ops = Some true)
+     the operand is parenthesized and stays one operand. *)
   Definition neg_operand (e : expr) : option expr :=
     match e with
     | ELit (LInt z) => if Z.ltb z 0 then Some (ELit (LInt (- z))) else None
@@ -233,7 +273,8 @@ Section EmitCF.
     match pyop sym, ins, outs with
     | Some (cmp, cls), [a; b], o :: _ =>
       Some [SAssign (tv o)
-              (match (if String.eqb sym "**" then neg_operand (ref_e a) else None) with
+              (match (if String.eqb sym "**" && negb (match use_ops with Some true => true | _ => false end)
+                      then neg_operand (ref_e a) else None) with
                | Some pa => EUn "USub" (EBin cls pa (ref_e b))
                | None => (if cmp then ECmp else EBin) cls (ref_e a) (ref_e b)
                end)]
@@ -251,8 +292,8 @@ Section EmitCF.
         match sub gt, sub ge with
         | Some st, Some se =>
           Some [SIf (ref_e c)
-                    (st ++ assigns (map tv outs) (map tv (g_outs gt)))%list
-                    (se ++ assigns (map tv outs) (map tv (g_outs ge)))%list]
+                    (st ++ assigns_n (map tv outs) (g_outs gt))%list
+                    (se ++ assigns_n (map tv outs) (g_outs ge))%list]
         | _, _ => None
         end
       | _, _, _ => None
@@ -267,18 +308,18 @@ Section EmitCF.
           let nstate := List.length ins - 2 in
           let fouts := firstn nstate fouts_all in
           let aouts := firstn nstate outs in
-          let n_iter := match ins with Some m :: _ => tr m | _ => "None" end in
+          let n_iter := match ins with Some m :: _ => src_o (Some m) | _ => EVar "None" end in
           let use_cond := match form with FWhile | FForBreak => true | _ => false end in
-          let pre := ((if has_in ins 1 then [SAssign (tr cin) (EVar (tvo (nth 1 ins None)))] else [])
-                      ++ assigns (map tv fins) (map tvo (skipn 2 ins)))%list in
-          let inner := (sb ++ (if use_cond then [SAssign (tr cin) (EVar (tv cout))] else [])
-                           ++ assigns (map tv fins) (map tv fouts))%list in
-          let post := assigns (map tv aouts) (map tv fins) in
+          let pre := ((if has_in ins 1 then [SAssign (tr cin) (src_o (nth 1 ins None))] else [])
+                      ++ assigns_o (map tv fins) (skipn 2 ins))%list in
+          let inner := (sb ++ (if use_cond then [SAssign (tr cin) (src_n cout)] else [])
+                           ++ assigns_n (map tv fins) fouts)%list in
+          let post := assigns_n (map tv aouts) fins in
           match form with
-          | FFor => if infun then Some (pre ++ [SFor (tr iv) (EVar n_iter) inner] ++ post)%list else None
+          | FFor => if infun then Some (pre ++ [SFor (tr iv) n_iter inner] ++ post)%list else None
           | FWhile => Some (pre ++ [SWhile (tr cin) inner] ++ post)%list
           | FForBreak =>
-            Some (pre ++ [SFor (tr iv) (EVar n_iter) (SIf (EUn "Not" (EVar (tr cin))) [SBreak] [] :: inner)] ++ post)%list
+            Some (pre ++ [SFor (tr iv) n_iter (SIf (EUn "Not" (EVar (tr cin))) [SBreak] [] :: inner)] ++ post)%list
           | FNone => None
           end
         | _, _, _, _ => None
@@ -288,15 +329,15 @@ Section EmitCF.
 
     Definition emit_node_with (n : node) : option (list stmt) :=
       let 'Node dom op ins outs attrs subs := n in
-      if inline && String.eqb op "Constant" && is_some (node_const attrs) then Some []
+      if inl_drop inline op attrs then Some []
       else if String.eqb op "If" then emit_if ins outs attrs subs
       else if String.eqb op "Loop" then emit_loop ins outs attrs subs
       else if String.eqb op "Scan" then None
       else if negb (is_nil subs) then None
       else
-        match (if use_ops then lookup_assoc op use_operators_table else None) with
+        match (match use_ops with Some _ => lookup_assoc op use_operators_table | None => None end) with
         | Some sym => emit_operator sym ins outs
-        | None => if inline then emit_call n else emit_node kw tr n
+        | None => match inline with Some _ => emit_call n | None => emit_node kw tr n end
         end.
   End Node.
 
@@ -311,7 +352,10 @@ End EmitCF.
 Section Export.
   Variable kw : list string.
   Variable prename rename : vname -> string.
-  Variable infun use_ops inline skip : bool.
+  Variable infun : bool.
+  Variable use_ops : option bool.
+  Variable inline : option inline_fx.
+  Variable skip : bool.
 
   Definition skipped (iv : vname * attrv) : bool := skip && Z.ltb (Z.of_nat small_tensor_size) (tensor_size (snd iv)).
 
@@ -319,8 +363,11 @@ Section Export.
      translated name to make_node and _translate_node records node.output[0]) *)
   Definition init_consts (ivals : list (vname * attrv)) : cdict :=
     fold_left (fun acc iv => if skipped iv then acc
-                             else match (if inline then const_lit (snd iv) else None) with
-                                  | Some l => (rename (fst iv), l) :: acc
+                             else match inline with
+                                  | Some fx => match const_lit_fx fx (snd iv) with
+                                               | Some l => ((if fx_init_raw fx then fst iv else rename (fst iv)), l) :: acc
+                                               | None => acc
+                                               end
                                   | None => acc
                                   end) ivals [].
 
@@ -329,7 +376,7 @@ Section Export.
 
   Definition emit_init_cf (rm : remaps) (iv : vname * attrv) : option (list stmt) :=
     if skipped iv then Some []
-    else if inline && is_some (const_lit (snd iv)) then Some []
+    else if match inline with Some fx => is_some (const_lit_fx fx (snd iv)) | None => false end then Some []
     else emit_init kw (tr_with rename rm) iv.
 
   (* -> the function, and the names of the parameters of the enclosing make_model (skip_initializers) *)
@@ -341,7 +388,11 @@ Section Export.
       Some ({| f_name := fname;
                f_tparams := map prename (g_ins g);
                f_aparams := [];
-               f_body := (si ++ sn ++ [SReturn (map (fun o => EVar (tr_with rename rm o)) (g_outs g))])%list |},
+               f_body := (si ++ sn ++ [SReturn (match inline with
+                                                | Some fx => if fx_src_ref fx then map (ref_name rename rm consts) (g_outs g)
+                                                             else map (fun o => EVar (tr_with rename rm o)) (g_outs g)
+                                                | None => map (fun o => EVar (tr_with rename rm o)) (g_outs g)
+                                                end)])%list |},
             map (fun iv => tr_with rename rm (fst iv)) (filter skipped ivals))
     | _, _ => None
     end.
@@ -521,11 +572,11 @@ Section NestedOk.
     filter (fun x => negb (memb x (map fst rm))) (gnames g).
 
   Definition nested_okb (ivals : list (vname * attrv)) (g : graph) : bool :=
-    let rm := fst (scan rename infun false false ivals g) in
+    let rm := fst (scan rename infun None false ivals g) in
     let NN := nested_names rm g in
     let t := tr rename rm in
     let D0 := (g_ins g ++ g_inits g)%list in
-    is_nil (snd (scan rename infun false false ivals g)) &&
+    is_nil (snd (scan rename infun None false ivals g)) &&
     list_eqb (map fst ivals) (g_inits g) && nodupb D0 && forallb (fun x => nonempty x && memb x NN) D0 &&
     nodupb (map t NN) && negb (memb "None" (map t NN)) && negb (memb "" (map t NN)) &&
     forallb (fun x => String.eqb (prename x) (t x)) (g_ins g) &&
